@@ -48,6 +48,14 @@ def dense_record_def(FI_, F4_, P, bi, wper, br):
     return z3.And(nw >= 0, nw % wper == 0, FI_(P - 2 * bi) >= 1), F4_(P - 3 * bi - 4) == E - (P - 3 * bi), E
 
 
+def string_header_def(FI_, S, bi, L, row, layout):
+    """FORMAT DEFINITION of the header of a string that starts at byte offset S and carries L value words for rows row, row+1, ... (1-based): (constraints, header bytes).
+    Shared by the reader contract (abstract file) and the writer contract (words written)."""
+    if layout == "bigmat":
+        return z3.And(FI_(S) == L + 1, FI_(S + bi) == row), 2 * bi
+    return z3.And(FI_(S) == row + 65536 * (L + 1), row <= 65535), bi
+
+
 class Tok:
     """bytes returned by fp.read: n bytes starting at offset p"""
 
@@ -175,12 +183,8 @@ def make_env(layout):
         S, R = [eng.to_int(eng.ev(a, st, True)) for a in e.args]
         wper, br = st.env["wper"], st.env["bytesreal"]
         L, row = SLEN(S), SROW(S)
-        if layout == "bigmat":
-            hdr = z3.And(FI(S) == L + 1, FI(S + bi) == row)
-            S2, R2 = S + 2 * bi + br * (L / wper), R - (L + 2)
-        else:
-            hdr = z3.And(FI(S) == row + 65536 * (L + 1), row <= 65535)
-            S2, R2 = S + bi + br * (L / wper), R - (L + 1)
+        hdr, hb = string_header_def(FI, S, bi, L, row, layout)
+        S2, R2 = S + hb + br * (L / wper), R - (L + (2 if layout == "bigmat" else 1))
         step = z3.Implies(z3.And(WFS(S, R), R > 0), z3.And(hdr, L >= 0, L % wper == 0, row >= 1, WFS(S2, R2), SEND(S, R) == SEND(S2, R2)))
         base = z3.And(z3.Implies(WFS(S, R), R >= 0), z3.Implies(z3.And(WFS(S, R), R == 0), SEND(S, R) == S))
         return z3.And(step, base)
